@@ -510,6 +510,11 @@ fn scenarios(prop: &str, tier: &str) -> Vec<Scenario> {
             v.push(sc("base2_ops2_unbounded_len1", &["committed", "discarded", "end"], || {
                 overlay(&Cfg { n_base: 2, n_ops: 2, lens: vec![1], bounded: false, depth: 1 })
             }));
+            // three operations on one layer (seed C06d: set, set, remove of a key the base lacks; the
+            // replay log and the live view must agree after commit)
+            v.push(sc("base1_ops3_unbounded_len1", &["committed", "discarded", "end"], || {
+                overlay(&Cfg { n_base: 1, n_ops: 3, lens: vec![1], bounded: false, depth: 1 })
+            }));
             v.push(sc("base1_ops1_symbolic_bounds_len1", &["committed", "discarded", "end"], || {
                 overlay(&Cfg { n_base: 1, n_ops: 1, lens: vec![1], bounded: true, depth: 1 })
             }));
